@@ -861,13 +861,27 @@ def task_seen(x):
     if b is not None:
         where = "memmap:" + os.path.basename(os.path.dirname(str(b.filename))) + "/" + os.path.basename(str(b.filename))
     return dict(sha1=_h.sha1(data).hexdigest(), dtype=repr(le), shape=list(x.shape), where=where,
-                c=bool(x.flags.c_contiguous), f=bool(x.flags.f_contiguous), type=type(x).__name__)
+                c=bool(x.flags.c_contiguous), f=bool(x.flags.f_contiguous), type=type(x).__name__,
+                writeable=bool(x.flags.writeable))
 
 
-def parallel_cases(scratch, rnd, thorough, shard=0, nshards=1):
-    """max_nbytes thresholds around the array size through Parallel(n_jobs=2, max_nbytes=...) with loky and threading."""
-    from joblib import Parallel, delayed
+OBJ_STRUCTS = [
+    [["payload", "O"]],                                   # an object field alone
+    [["id", "<i8"], ["payload", "O"]],                    # mixed with numeric fields
+    [["a", ">i4"], ["o", "O"], ["b", "<f8"]],
+    [["in", [["u", "O"], ["v", "<i4"]]], ["w", "<f4"]],   # nested struct holding the object
+    [["xs", "O", [2]], ["n", "<i4"]],                     # sub-array field of objects
+    [["m", "<f8", [3]], ["o", "O"]],
+]
 
+
+def memstr(s):
+    """joblib.disk.memstr_to_bytes for the forms used here (the harness's translation for the model)."""
+    return int(float(s[:-1]) * {"K": 1024, "M": 1024 ** 2}[s[-1]])
+
+
+def parallel_jobs(rnd, thorough):
+    """(array spec, backend, max_nbytes as passed, mmap_mode) for the `Parallel(max_nbytes=…)` path."""
     specs = [
         dict(dtype="<f8", shape=[40, 25], layout="C", seed=1),
         dict(dtype=">i4", shape=[30, 10], layout="F", seed=2),
@@ -875,6 +889,8 @@ def parallel_cases(scratch, rnd, thorough, shard=0, nshards=1):
         dict(dtype=[["a", "<i4"], ["b", ">f8"]], shape=[50], layout="C", seed=4),
         dict(dtype="<i2", shape=[12, 6, 5], layout="T", seed=5),
         dict(dtype="O", shape=[40], layout="C", seed=6),
+        dict(dtype="O", shape=[6, 7], layout="F", seed=15),
+        dict(dtype="O", shape=[9, 5], layout="slice", seed=16),
         dict(dtype="<M8[s]", shape=[64], layout="rev", seed=7),
         dict(dtype="<u1", shape=[1000], layout="C", seed=8),
         dict(dtype="<f4", shape=[9, 9], layout="matrix", seed=9),
@@ -884,54 +900,102 @@ def parallel_cases(scratch, rnd, thorough, shard=0, nshards=1):
         dict(dtype="<f8", shape=[20, 10], layout="memmap-slice", seed=13),
         dict(dtype="<f8", shape=[20, 10], layout="memmap-view", seed=14),
     ]
+    for i, dt in enumerate(OBJ_STRUCTS):
+        specs.append(dict(dtype=dt, shape=rnd.choice([[60], [12, 5], [7, 3, 4]]), layout=rnd.choice(["C", "F", "slice", "T"]), seed=30 + i))
     if thorough:
         for i, dt in enumerate(["<f2", ">c16", "S5", "<U3", "?", ">m8[us]"]):
             specs.append(dict(dtype=dt, shape=[31, 7], layout=rnd.choice(["C", "F", "slice", "T"]), seed=20 + i))
-    for backend in ("loky", "threading"):
-        for si, spec in enumerate(specs):
-            if si % nshards != shard:
-                continue
-            a = make_array(spec, os.path.join(scratch, "src"))
-            n = int(a.nbytes)
-            ths = [n - 1, n, n + 1, None, 0] if n else [0, None]
-            if not thorough:
-                ths = ths[:4]
+        for i, dt in enumerate(OBJ_STRUCTS):
+            specs.append(dict(dtype=dt, shape=[33], layout=rnd.choice(["C", "rev", "bcast", "readonly"]), seed=50 + i))
+    jobs = []
+    for backend in ("loky", "multiprocessing", "threading"):
+        for spec in specs:
+            ths = ["n-1", "n", "n+1", None] + ([0] if thorough or backend != "threading" else [])
+            if backend == "multiprocessing" and not thorough:
+                ths = ["n-1", "n", None]
             for mx in ths:
-                if mx is not None and mx < 0:
-                    continue
-                case = dict(kind="parallel", array=spec, backend=backend, max_nbytes=mx)
-                ST.evaluations += 1
-                ST.count("parallel:" + backend)
-                ST.nontrivial.add(json.dumps([spec, backend, mx], sort_keys=True))
-                want = task_seen(a)
-                try:
-                    out = Parallel(n_jobs=2, backend=backend, max_nbytes=mx, temp_folder=os.path.join(scratch, "jl"))(
-                        delayed(task_seen)(x) for x in (a, a))
-                except Exception as e:  # noqa: BLE001
-                    fail("parallel-raises:" + type(e).__name__, case, repr(e)[:300])
-                    continue
-                bm = backing(a)
-                backed = bm is not None and isinstance(bm, np.memmap)
-                for got in out:
-                    if got["sha1"] != want["sha1"] or got["shape"] != want["shape"]:
-                        sig = "worker-values-differ"
-                        if backed:
-                            sig = view_signature(a, bm)
-                        fail(sig, case, dict(want=want, got=got))
-                    elif got["dtype"] != want["dtype"]:
-                        fail("worker-dtype-differs", case, dict(want=want["dtype"], got=got["dtype"]))
-                    if backend == "loky":
-                        if got["where"] == "array":
-                            obs = "plain-pickle"
-                        elif backed and got["where"].endswith("/" + os.path.basename(str(bm.filename))):
-                            obs = "reuse-backing"
-                        else:
-                            obs = "dump-and-memmap"
-                        corr("forward", case, f"forward {int(type(a) in (np.ndarray, np.memmap))} {int(backed)} {int(a.dtype.hasobject)} "
-                                              f"{'-' if mx is None else mx} {n}", obs)
-                    else:
-                        if got["where"] != want["where"]:
-                            fail("threading-backend-copied-or-remapped-the-array", case, dict(want=want["where"], got=got["where"]))
+                jobs.append((spec, backend, mx, "r"))
+    # string forms of max_nbytes, and the default ('1M'), around 1 KiB / 1 MiB, with and without object fields
+    for backend in ("loky", "multiprocessing"):
+        for dt, n in (("<f8", 127), ("<f8", 128), ("<f8", 129), (OBJ_STRUCTS[1], 63), (OBJ_STRUCTS[1], 64), (OBJ_STRUCTS[1], 65),
+                      ("O", 127), ("O", 129), (OBJ_STRUCTS[4], 60)):
+            jobs.append((dict(dtype=dt, shape=[n], layout="C", seed=70), backend, "1K", "r"))
+        jobs.append((dict(dtype="<f8", shape=[131073], layout="C", seed=71), backend, "default", "r"))
+        jobs.append((dict(dtype=OBJ_STRUCTS[1], shape=[66000], layout="C", seed=72), backend, "default", "r"))
+        jobs.append((dict(dtype="<i4", shape=[300, 40], layout="F", seed=73), backend, "0.5K", "r"))
+    # mmap_mode of the automatic memmap, where it matters: arrays above the threshold
+    for backend in ("loky", "multiprocessing"):
+        for mode in ("r", "r+", "c", "w+"):
+            jobs.append((dict(dtype="<f8", shape=[30, 10], layout="C", seed=80), backend, 100, mode))
+            jobs.append((dict(dtype=[["a", "<i4"], ["b", ">f8"]], shape=[40], layout="C", seed=81), backend, 100, mode))
+            jobs.append((dict(dtype=OBJ_STRUCTS[1], shape=[40], layout="C", seed=82), backend, 100, mode))
+            jobs.append((dict(dtype="O", shape=[40], layout="C", seed=83), backend, 100, mode))
+    return jobs
+
+
+def parallel_cases(scratch, rnd, thorough, shard=0, nshards=1):
+    """Arrays handed to tasks through `Parallel(n_jobs=2, max_nbytes=…, mmap_mode=…)` with loky, multiprocessing and
+    threading: thresholds just below / at / above the array size, None, 0, '1K'-style strings, the default; numeric,
+    plain-object, and structured / sub-array dtypes holding objects. Oracle: the task sees identical values (object
+    fields element-wise) whether the array travelled as a memmap or by pickling — and never an exception."""
+    from joblib import Parallel, delayed
+
+    jobs = parallel_jobs(random.Random("C19-parallel-jobs"), thorough)
+    del rnd
+    for ji, (spec, backend, mx_form, mode) in enumerate(jobs):
+        if ji % nshards != shard:
+            continue
+        a = make_array(spec, os.path.join(scratch, "src"))
+        n = int(a.nbytes)
+        if isinstance(mx_form, str) and mx_form.startswith("n"):
+            mx = n + {"n-1": -1, "n": 0, "n+1": 1}[mx_form]
+            if mx < 0:
+                continue
+        else:
+            mx = mx_form
+        kwargs = dict(n_jobs=2, backend=backend, temp_folder=os.path.join(scratch, "jl"), mmap_mode=mode)
+        if mx != "default":
+            kwargs["max_nbytes"] = mx
+        mx_bytes = memstr("1M") if mx == "default" else (memstr(mx) if isinstance(mx, str) else mx)
+        case = dict(kind="parallel", array=spec, backend=backend, max_nbytes=mx, mmap_mode=mode)
+        ST.evaluations += 1
+        ST.count("parallel:" + backend)
+        ST.count("parallel:max_nbytes=" + (mx_form if isinstance(mx_form, str) else repr(mx_form)))
+        ST.count("parallel:dtype=" + ("struct-with-object" if a.dtype.names and a.dtype.hasobject else
+                                      "object" if a.dtype.hasobject else "struct" if a.dtype.names else a.dtype.kind))
+        ST.nontrivial.add(json.dumps([spec, backend, mx, mode], sort_keys=True))
+        want = task_seen(a)
+        try:
+            out = Parallel(**kwargs)(delayed(task_seen)(x) for x in (a, a))
+        except Exception as e:  # noqa: BLE001
+            fail("parallel-raises:" + type(e).__name__, case, repr(e)[:300])
+            continue
+        bm = backing(a)
+        backed = bm is not None and isinstance(bm, np.memmap)
+        for got in out:
+            if got["sha1"] != want["sha1"] or got["shape"] != want["shape"]:
+                sig = "worker-values-differ"
+                if backed:
+                    sig = view_signature(a, bm)
+                fail(sig, case, dict(want=want, got=got))
+            elif got["dtype"] != want["dtype"]:
+                fail("worker-dtype-differs", case, dict(want=want["dtype"], got=got["dtype"]))
+            if backend in ("loky", "multiprocessing"):
+                if got["where"] == "array":
+                    obs = "plain-pickle"
+                elif backed and got["where"].endswith("/" + os.path.basename(str(bm.filename))):
+                    obs = "reuse-backing"
+                else:
+                    obs = "dump-and-memmap"
+                ST.count("parallel:travelled-as=" + obs)
+                corr("forward", case, f"forward {int(type(a) in (np.ndarray, np.memmap))} {int(backed)} {int(a.dtype.hasobject)} "
+                                      f"{'-' if mx_bytes is None else mx_bytes} {n}", obs)
+                # the automatic memmap is opened with the requested mode ('w+' must not zero the data: values above)
+                if obs == "dump-and-memmap" and got["writeable"] != (mode != "r"):
+                    fail("automatic-memmap-mode-not-honoured", case, dict(mode=mode, writeable=got["writeable"]))
+            else:
+                if got["where"] != want["where"]:
+                    fail("threading-backend-copied-or-remapped-the-array", case, dict(want=want["where"], got=got["where"]))
 
 
 def parallel_view_cases(scratch):
